@@ -47,6 +47,9 @@ ALLOW = {
 }
 
 
+_FIXTURE = False
+
+
 def _role(fn, term):
     pl = term.place
     name = fn.local_name(pl.local)
@@ -132,7 +135,7 @@ def no_callback_under_lock(r, F, A=None):
                 what, ", ".join(held), (" — reached via " + " <- ".join(chain[:4])) if chain else ""), ln=s.ln)
         else:
             r.ok(s.fn, role, "%s invoked with no internal lock held" % what, ln=s.ln)
-    if n < 10:
+    if n < 10 and not _FIXTURE:
         r.fail(None, "sites", "only %d callback call sites found (listener / weighter / filter / pipe); 10+ confirmed on the pinned tree" % n)
 
 
@@ -196,7 +199,7 @@ def no_user_drop_under_lock(r, F, A=None):
             r.fail(s.fn, role, "`%s` destroys a value of type `%s` (owns keys/values) while %s may be held: a key/value destructor that re-enters the cache deadlocks" % (
                 callee, owning[0][:90], ", ".join(held)), ln=s.ln)
     r.check.notes.append({"opaque-closure drops under lock (observation)": observations[:10]})
-    if n_under < 20:
+    if n_under < 20 and not _FIXTURE:
         r.fail(None, "sites", "only %d drops under a lock were analysed (the pinned tree has far more): the lock-region analysis lost its anchors" % n_under)
 
 
@@ -247,7 +250,7 @@ def lock_order(r, F, A=None):
         else:
             r.ok(s.fn, "order:" + role, "%s acquired while holding %s (%d site(s)); no path back" % (b, a, len(ss)), ln=s.ln)
     acq = [s for s in A.acquire_sites() if CLASS_OK.search(s.detail[1])]
-    if len(acq) < 30:
+    if len(acq) < 30 and not _FIXTURE:
         r.fail(None, "sites", "only %d lock acquisitions found (30+ confirmed)" % len(acq))
     r.ok("foyer_*", "acquisitions", "%d lock acquisition sites of %d classes analysed" % (len(acq), len({s.detail[1] for s in acq})))
 
@@ -261,7 +264,7 @@ def no_guard_across_await(r, F, A=None):
         if bad:
             r.fail(s.fn, "yield-with:" + bad[0].rsplit("::", 1)[-1], "a synchronous lock guard on %s is live across an await point: the task can be suspended holding the lock" % bad, ln=s.ln)
     r.ok("foyer_*", "await points", "%d await points inspected; no synchronous guard live across any" % n)
-    if n < 50:
+    if n < 50 and not _FIXTURE:
         r.fail(None, "sites", "only %d await points found (50+ confirmed)" % n)
 
 
@@ -271,3 +274,47 @@ def run(chk, F):
     chk.run_rule("C16.no-user-drop-under-lock", "no value owning a key or value is dropped while an internal lock may be held (refinements + one-construct allow-list)", 8, no_user_drop_under_lock, F, A)
     chk.run_rule("C16.lock-order", "the acquired-while-holding graph over lock classes has no self edge and no cycle", 2, lock_order, F, A)
     chk.run_rule("C16.no-guard-across-await", "no synchronous lock guard is live across an await point", 1, no_guard_across_await, F, A)
+
+
+EXPECT_FIXTURE = {
+    "C16.no-callback-under-lock": {"bad": ["bad_callback_under_lock"], "good": ["good_callback_after_lock"]},
+    "C16.no-user-drop-under-lock": {"bad": ["bad_user_drop_under_lock", "bad_clear_under_lock"], "good": ["good_user_drop_after_lock"]},
+    "C16.lock-order": {"bad": ["bad_order_shard_then_inflights", "bad_order_inflights_then_shard"], "good": []},
+    "C16.no-guard-across-await": {"bad": ["bad_guard_across_await"], "good": ["good_guard_released_before_await"]},
+}
+
+
+def fixtures(chk):
+    """zero-count rules must fire on their positive examples (and stay silent on the twins) on every run"""
+    global _FIXTURE
+    from sa import fixture, report
+    r = chk.rule("C16.fixture", "every zero-count rule reports its positive example in fixtures/foyer_fixture and stays silent on the twin", 8)
+    try:
+        FF = fixture.facts()
+    except SystemExit as e:
+        r.fail("fixtures/foyer_fixture", "analyse", "the fixture crate could not be analysed: %s" % str(e)[:300])
+        return
+    A = locks.LockAnalysis(FF)
+    scratch = report.Check("C16", chk.tier)
+    scratch.config = "fixture"
+    _FIXTURE = True
+    try:
+        scratch.run_rule("C16.no-callback-under-lock", "", 0, no_callback_under_lock, FF, A)
+        scratch.run_rule("C16.no-user-drop-under-lock", "", 0, no_user_drop_under_lock, FF, A)
+        scratch.run_rule("C16.lock-order", "", 0, lock_order, FF, A)
+        scratch.run_rule("C16.no-guard-across-await", "", 0, no_guard_across_await, FF, A)
+    finally:
+        _FIXTURE = False
+    for sr in scratch.rules:
+        reported = {v["fn"] for v in sr.violations}
+        exp = EXPECT_FIXTURE.get(sr.id, {"bad": [], "good": []})
+        for b in exp["bad"]:
+            hit = any(b in f for f in reported)
+            r.require(hit, "fixtures/foyer_fixture/src/lib.rs", "%s fires on %s" % (sr.id, b), "positive example reported",
+                      "the rule %s no longer reports its positive example `%s`: the rule is disarmed" % (sr.id, b))
+            chk.fixture_results.append({"rule": sr.id, "example": b, "reported": hit})
+        for g in exp["good"]:
+            hit = any(g in f for f in reported)
+            r.require(not hit, "fixtures/foyer_fixture/src/lib.rs", "%s silent on %s" % (sr.id, g), "negative twin not reported",
+                      "the rule %s reports the behaviour-preserving twin `%s`: false alarm" % (sr.id, g))
+            chk.fixture_results.append({"rule": sr.id, "example": g, "reported": hit, "twin": True})
